@@ -444,7 +444,10 @@ def mmm(n: size, x: f32[n], y: f32[n]):
             ))
     for fk, form in EXPR_FORMS.items():
         full = (fk == "mul_add_const")
-        d = FULL if full else (SMALL2 if quick else MID)
+        if full:
+            d = FULL if not quick else dom(mems=["DRAM", "DRAM_STACK", "AVX2", "T_WO"])
+        else:
+            d = SMALL2 if quick else MID
         out.append(dict(
             name=f"expr/{fk}",
             src=f'''
